@@ -240,10 +240,61 @@ func encode(a *Adapter, ctx context.Context, f api.XFrame, id uint64) (out []byt
 	return out, nil, ""
 }
 
-func scribble(b []byte) {
-	b = b[:cap(b)]
-	for i := range b {
-		b[i] ^= 0xff
+// readBuf models the read buffer of a connection (pkg/network/connection.go
+// doRead / startReadLoop): ONE pooled IoBuffer that the read loop fills with
+// ReadOnce, that the stream layer (pkg/stream/xprotocol/conn.go Dispatch) hands
+// to Decode frame after frame - Decode drains what it consumed - and that the
+// read loop then refills with whatever the peer sends next while the decoded
+// frames are still being routed, filtered, retried and forwarded.
+type readBuf struct {
+	buf  api.IoBuffer
+	back []byte // the memory the frames were read into
+}
+
+// newReadBuf returns a read buffer into which the peer's bytes (the frame under
+// test followed by the next frame) have been read.
+func newReadBuf(frame, trailer []byte) *readBuf {
+	b := buffer.GetIoBuffer(len(frame) + len(trailer) + 1)
+	b.Write(frame)
+	b.Write(trailer)
+	back := b.Bytes()
+	return &readBuf{buf: b, back: back[:cap(back)]}
+}
+
+// complementReader is the peer of the next read: it sends as many bytes as the
+// read buffer takes, each one the complement of the byte that was at that place
+// of the buffer before (the worst case for anything that still points there:
+// every byte changes). It remembers where the bytes went.
+type complementReader struct{ dst []byte }
+
+func (r *complementReader) Read(p []byte) (int, error) {
+	// one byte less than fits: ReadOnce would otherwise move to a bigger slice
+	// afterwards (harmless, only slower)
+	if len(p) > 1 {
+		p = p[:len(p)-1]
+	}
+	for i := range p {
+		p[i] ^= 0xff
+	}
+	r.dst = p
+	return len(p), nil
+}
+
+// refill is what happens to the read buffer after the frame under test was
+// decoded: Dispatch decodes (drains) the frames behind it, the buffer is empty,
+// and the next doRead -> ReadOnce resets it and writes the peer's next bytes
+// from offset 0 over the place where the frame was. Only memory of the read
+// buffer is written: whatever the codec copied out of it is its own.
+func (r *readBuf) refill() {
+	r.buf.Drain(r.buf.Len())
+	cr := &complementReader{}
+	r.buf.ReadOnce(cr)
+	if len(cr.dst) == 0 || len(r.back) == 0 || &cr.dst[0] != &r.back[0] {
+		// ReadOnce released the (oversized) slice to the byte pool and took a new
+		// one: the next user of the pool overwrites the old one
+		for i := range r.back {
+			r.back[i] ^= 0xff
+		}
 	}
 }
 
@@ -290,6 +341,9 @@ func CheckFidelity(p *vreport.Part, a *Adapter, c Case) {
 	switch {
 	case res == "ok":
 		p.Outcome("identical")
+	case c.Scribble && res == viewChanged:
+		p.Outcome("view-changed-by-buffer-reuse")
+		p.Violation(a.key(c, viewChanged), detail, c)
 	case c.Scribble && a.UnstableDiff != "" && res == a.UnstableDiff:
 		// a run-to-run difference of the encoder, unrelated to the buffer: reported
 		// (deterministically, by repetition) by the twin case
@@ -313,13 +367,14 @@ func CheckFidelity(p *vreport.Part, a *Adapter, c Case) {
 	}
 }
 
+// viewChanged: the content read from a decoded frame changes when the read buffer is reused.
+const viewChanged = "decoded-content-changes-when-read-buffer-is-reused"
+
 func fidelityOnce(a *Adapter, c Case, in, want []byte, scrib bool, tries int) (res, detail string) {
-	rb := make([]byte, 0, len(in)+len(a.Trailer))
-	rb = append(append(rb, in...), a.Trailer...)
-	data := buffer.NewIoBufferBytes(rb)
+	rb := newReadBuf(in, a.Trailer)
 	ctx := newCtx(a, c)
 	defer release(ctx)
-	d := decode(a, ctx, data)
+	d := decode(a, ctx, rb.buf)
 	if d.panic != "" {
 		return "decode-panics", "Decode of a well-formed frame panicked: " + d.panic
 	}
@@ -337,7 +392,13 @@ func fidelityOnce(a *Adapter, c Case, in, want []byte, scrib bool, tries int) (r
 		return "decode-consumes-wrong-length", fmt.Sprintf("frame of %d bytes followed by a %d-byte frame: after Decode %d bytes remain in the read buffer (expected exactly the second frame)", len(in), len(a.Trailer), len(d.rest))
 	}
 	if scrib {
-		scribble(rb)
+		// what routing and stream filters read (Get/Range, GetData, class) must be
+		// the same before and after the read loop went on
+		before := frameView(a, d.frame)
+		rb.refill()
+		if df := viewDiff(before, frameView(a, d.frame)); df != "" {
+			return viewChanged, "headers/body/class read from the decoded frame (GetHeader().Range, GetData) before and after the connection's read buffer was refilled by the next read differ: " + df
+		}
 	}
 	rcv, err := capture(d.frame)
 	if err != nil {
@@ -489,16 +550,13 @@ func apply(a *Adapter, c Case, f api.XFrame, v *View) (ok bool, pan string) {
 		}
 	}()
 	h := f.GetHeader()
+	// the smallest key of the frame as received (v is the expected view: equal to
+	// what the decoded frame exposed right after Decode, sorted by key)
 	first := func() (string, string, bool) {
-		var k, val string
-		found := false
-		h.Range(func(kk, vv string) bool {
-			if !found || kk < k {
-				k, val, found = strings.Clone(kk), strings.Clone(vv), true
-			}
-			return true
-		})
-		return k, val, found
+		if len(v.Headers) == 0 {
+			return "", "", false
+		}
+		return string(v.Headers[0].K), string(v.Headers[0].V), true
 	}
 	fill := func(n int) string { return string(vref.ASCII(n, 17)) }
 	switch c.Mod {
@@ -580,57 +638,157 @@ func apply(a *Adapter, c Case, f api.XFrame, v *View) (ok bool, pan string) {
 	return true, ""
 }
 
-// CheckMod applies oracle (3) for c.Mod on the frame of the case.
+// modResult is the result of one run of a modification case.
+type modResult struct {
+	outcome string // for p.Outcome
+	suffix  string // "" = nothing wrong; else the finding key is a.key(c, suffix)
+	detail  string
+	harness string   // harness error (reference parser rejects a reference frame, ...)
+	view    string   // refill only: how the decoded view changed when the read buffer was refilled
+	sample  bool     // the case reached the encode step
+	outs    [][]byte // what the attempts encoded (nil entry: refused)
+}
+
+// CheckMod applies oracle (3) for c.Mod on the frame of the case. c.Scribble:
+// the twin case in which the connection's read buffer is refilled by the next
+// read between Decode and the modification (a pipelined connection: the frame
+// waits in the worker pool / for an upstream connection while the read loop
+// goes on). Anything wrong in the twin that is not wrong in exactly the same way
+// when the buffer is left alone is an effect of the reuse.
 func CheckMod(p *vreport.Part, a *Adapter, c Case) {
 	p.Distinct(c.classKey())
-	in, _ := a.Build(c)
 	if a.Unsupported != nil && a.Unsupported(c) != "" {
 		p.Outcome("not-compared")
 		return
 	}
+	r := modOnce(a, c, c.Scribble)
+	if r.harness != "" {
+		vreport.HarnessError(p.Prop, p.Name, r.harness)
+		return
+	}
+	if r.sample && p.WantSample() {
+		p.Sample(c)
+	}
+	switch r.outcome {
+	case "base-frame-undecodable":
+		p.Count("base_frame_undecodable", 1)
+	case "modification-not-applicable":
+		p.Count("not_applicable", 1)
+	}
+	if !c.Scribble {
+		p.Outcome(r.outcome)
+		if r.suffix != "" {
+			p.Violation(a.key(c, r.suffix), r.detail, c)
+		}
+		return
+	}
+	if r.view != "" {
+		p.Outcome("view-changed-by-buffer-reuse")
+		p.Violation(a.key(c, viewChanged), r.view, c)
+	}
+	if r.suffix == "" {
+		p.Outcome(r.outcome)
+		return
+	}
+	// wrong with the buffer refilled: the same without?
+	stable := a.UnstableDiff == "" || a.EncodeTries == nil || a.EncodeTries(c) <= 1
+	if !stable && r.suffix == a.UnstableDiff {
+		p.Outcome("differs-anyway")
+		return
+	}
+	r0 := modOnce(a, c, false)
+	if r0.harness != "" {
+		vreport.HarnessError(p.Prop, p.Name, r0.harness)
+		return
+	}
+	if !stable && r0.suffix == a.UnstableDiff {
+		// the encoder's run-to-run difference hides what the reuse did
+		p.Outcome("not-compared:unstable-encoder")
+		p.Count("not_compared_unstable_encoder", 1)
+		return
+	}
+	same := r0.suffix == r.suffix
+	if same && stable {
+		// wrong in the same way (reported by the twin under its own key): then at
+		// least the encoded bytes must not depend on the reuse
+		same = len(r0.outs) == len(r.outs)
+		for i := 0; same && i < len(r.outs); i++ {
+			same = bytes.Equal(r0.outs[i], r.outs[i])
+		}
+	}
+	if same {
+		p.Outcome("differs-anyway")
+		return
+	}
+	without := "nothing wrong (" + r0.outcome + ")"
+	if r0.suffix != "" {
+		without = r0.suffix
+	}
+	firstDiff := ""
+	for i := 0; i < len(r.outs) && i < len(r0.outs); i++ {
+		if !bytes.Equal(r0.outs[i], r.outs[i]) {
+			firstDiff = fmt.Sprintf("; encoded bytes of attempt %d, buffer left alone vs refilled: %s", i+1, vref.FirstDiff(r0.outs[i], r.outs[i]))
+			break
+		}
+	}
+	p.Outcome("changed-by-buffer-reuse")
+	p.Violation(a.key(c, "modify="+modGroup(a, c.Mod)+" re-encoded-frame-changes-when-read-buffer-is-reused"),
+		fmt.Sprintf("the connection's read buffer was refilled by the next read after Decode and before the modification. Buffer left alone: %s. Buffer refilled: %s: %s%s", without, r.suffix, r.detail, firstDiff), c)
+}
+
+// modOnce decodes the frame of the case from a connection read buffer,
+// optionally lets the read loop refill that buffer, applies the modification
+// and checks every upstream attempt.
+func modOnce(a *Adapter, c Case, refill bool) (r modResult) {
+	in, _ := a.Build(c)
 	ctx := newCtx(a, c)
 	defer release(ctx)
-	d := decode(a, ctx, buffer.NewIoBufferBytes(append([]byte{}, in...)))
+	rb := newReadBuf(in, a.Trailer)
+	d := decode(a, ctx, rb.buf)
 	if d.panic != "" || d.err != nil || d.frame == nil {
 		// reported by the fidelity part under its own key
-		p.Outcome("base-frame-undecodable")
-		p.Count("base_frame_undecodable", 1)
+		r.outcome = "base-frame-undecodable"
 		return
 	}
 	f := d.frame
 	v0 := frameView(a, f)
 	ref0, _, err := a.RefView(c, in)
 	if err != nil {
-		vreport.HarnessError(p.Prop, p.Name, fmt.Sprintf("reference parser rejects a reference frame (%+v): %v", c, err))
+		r.harness = fmt.Sprintf("reference parser rejects a reference frame (%+v): %v", c, err)
 		return
 	}
 	if df := viewDiff(ref0, v0); df != "" {
-		p.Outcome("decoded-view-differs")
-		p.Violation(a.key(c, "decoded-content-differs-from-received-frame"), "headers/body/class the codec exposes after Decode differ from what the reference parser reads in the frame: "+df, c)
+		r.outcome = "decoded-view-differs"
+		r.suffix = "decoded-content-differs-from-received-frame"
+		r.detail = "headers/body/class the codec exposes after Decode differ from what the reference parser reads in the frame: " + df
 		return
+	}
+	if refill {
+		rb.refill()
+		if df := viewDiff(v0, frameView(a, f)); df != "" {
+			r.view = "headers/body/class read from the decoded frame (GetHeader().Range, GetData) before and after the connection's read buffer was refilled by the next read differ: " + df
+		}
 	}
 	v1 := v0
 	v1.Headers = append([]vref.KV{}, v0.Headers...)
 	ok, pan := apply(a, c, f, &v1)
 	if !ok {
-		p.Outcome("modification-not-applicable")
-		p.Count("not_applicable", 1)
+		r.outcome = "modification-not-applicable"
 		return
 	}
 	grp := modGroup(a, c.Mod)
 	if pan != "" {
-		p.Outcome("modify-panics")
-		p.Violation(a.key(c, "modify="+grp+" panics"), "modifying the decoded frame through its HeaderMap/SetData API panicked: "+pan, c)
+		r.outcome = "modify-panics"
+		r.suffix = "modify=" + grp + " panics"
+		r.detail = "modifying the decoded frame through its HeaderMap/SetData API panicked: " + pan
 		return
 	}
-	if p.WantSample() {
-		p.Sample(c)
-	}
+	r.sample = true
 	// what the proxy keeps and hands to every upstream attempt: the frame and the
 	// (possibly replaced) data buffer object
 	rcv, cerr := capture(f)
 	if cerr != nil {
-		vreport.HarnessError(p.Prop, p.Name, cerr.Error())
+		r.harness = cerr.Error()
 		return
 	}
 	representable := a.Representable == nil || a.Representable(c, v1)
@@ -651,14 +809,16 @@ func CheckMod(p *vreport.Part, a *Adapter, c Case) {
 			if bufNote != "" {
 				detail += " [" + bufNote + "]"
 			}
-			p.Outcome(again + outcome)
-			p.Violation(a.key(c, what+" "+again+suffix), fmt.Sprintf("mod %s, attempt %d (SetData(same buffer), SetRequestId(%d), Encode): %s", c.Mod, t+1, id, detail), c)
+			r.outcome = again + outcome
+			r.suffix = what + " " + again + suffix
+			r.detail = fmt.Sprintf("mod %s, attempt %d (SetData(same buffer), SetRequestId(%d), Encode): %s", c.Mod, t+1, id, detail)
 		}
 		out, err, pan := rcv.attempt(a, ctx, id)
 		if pan != "" {
 			fail("encode-panics", "encode-panics", "Encode of the modified frame panicked: "+pan)
 			return
 		}
+		r.outs = append(r.outs, out)
 		if err != nil {
 			if t > 0 {
 				fail("refused", "refused-although-first-encode-succeeded", fmt.Sprintf("Encode returned %v", err))
@@ -669,9 +829,9 @@ func CheckMod(p *vreport.Part, a *Adapter, c Case) {
 				return
 			}
 			if representable {
-				p.Outcome("refused")
+				r.outcome = "refused"
 			} else {
-				p.Outcome("refused-unrepresentable")
+				r.outcome = "refused-unrepresentable"
 			}
 			return
 		}
@@ -693,8 +853,9 @@ func CheckMod(p *vreport.Part, a *Adapter, c Case) {
 			if a.UnstableDiff != "" && a.DiffClass != nil && a.DiffClass(c, v1.Body, rv.Body) == a.UnstableDiff {
 				// the codec's run-to-run difference (reported by the fidelity part under this
 				// key): which attempt shows it is chance, so it must not shape the key
-				p.Outcome(a.UnstableDiff)
-				p.Violation(a.key(c, a.UnstableDiff), fmt.Sprintf("mod %s, attempt %d: %s", c.Mod, t+1, df), c)
+				r.outcome = a.UnstableDiff
+				r.suffix = a.UnstableDiff
+				r.detail = fmt.Sprintf("mod %s, attempt %d: %s", c.Mod, t+1, df)
 				return
 			}
 			fail("reencoded-lost-modification", "re-encoded-frame-does-not-carry-the-modified-content", "Encode returned no error; the reference parser reads back "+df)
@@ -727,9 +888,11 @@ func CheckMod(p *vreport.Part, a *Adapter, c Case) {
 	}
 	if bufNote != "" {
 		// every output was right, yet Encode consumed/rewrote the buffer it was given
-		p.Outcome("data-buffer-altered")
-		p.Violation(a.key(c, what+" encode-consumes-its-data-buffer"), fmt.Sprintf("mod %s: %s", c.Mod, bufNote), c)
+		r.outcome = "data-buffer-altered"
+		r.suffix = what + " encode-consumes-its-data-buffer"
+		r.detail = fmt.Sprintf("mod %s: %s", c.Mod, bufNote)
 		return
 	}
-	p.Outcome("round-trips")
+	r.outcome = "round-trips"
+	return
 }
